@@ -869,6 +869,34 @@ def all_bigrams():
 _BI = all_bigrams()
 
 
+def _twin(rng, pb, n0, n1, o, info):
+    """Append a copy of objects n0..n1-1 with only the key material replaced; return the index of
+    the copy of object o and a matching info dict."""
+    import copy
+    d = n1 - n0
+
+    def sh(v):
+        if isinstance(v, list):
+            return [sh(x) for x in v]
+        if isinstance(v, dict):
+            return {k: ((x + d) if (k == "obj" and isinstance(x, int) and n0 <= x < n1) else sh(x)) for k, x in v.items()}
+        return v
+    for i in range(n0, n1):
+        rec = sh(copy.deepcopy(pb.plan["objects"][i]))
+        k = rec.get("key")
+        if isinstance(k, dict) and "b" in k and len(k["b"]) > 0:
+            rec["key"] = B(rbytes(rng, len(k["b"]) // 2))
+        elif isinstance(k, dict) and "bits" in k:
+            rec["key"] = {"bits": [rng.getrandbits(k["bits"][1]), k["bits"][1]]}
+        pb.plan["objects"].append(rec)
+    sinfo = dict(info)
+    if "proxy" in sinfo:
+        sinfo["proxy"] = sinfo["proxy"] + d
+    if "aux" in sinfo:
+        sinfo["aux"] = {k: (v + d if n0 <= v < n1 else v) for k, v in sinfo["aux"].items()}
+    return o + d, sinfo
+
+
 class C10(Machine):
     prop = "C10"
     title = "one-shot results depend only on the arguments"
@@ -910,14 +938,22 @@ class C10(Machine):
                 fk[rng.choice(sorted(fk))] = True
         w, mk, ops = KINDS[kind]
         want_px = fk["collab_fail"]
+        n0 = len(pb.plan["objects"])
         o, info = mk(rng, pb, want_px)
+        n1 = len(pb.plan["objects"])
         x = Ctx(rng, pb, kind, o, info)
         ctxs = [x]
         roles = {str(o): "main"}
-        # sibling instance of the same kind (other key/config) -> class-level state
+        # sibling instance of the same kind -> class-level state.  Half of the siblings are a
+        # *twin*: the same recipe (same IV/counter/options, same message pool) with only the key
+        # replaced, so that anything cached per class and keyed on too little shows.
         sib = None
         if rng.random() < 0.6 and kind not in ("crc",):
-            so, sinfo = mk(rng, pb, False)
+            if rng.random() < 0.5 and kind not in SINGLETONS:
+                so, sinfo = _twin(rng, pb, n0, n1, o, info)
+                pb.plan["meta"]["twin"] = True
+            else:
+                so, sinfo = mk(rng, pb, False)
             sib = Ctx(rng, pb, kind, so, sinfo)
             roles[str(so)] = "sibling"
             ctxs.append(sib)
